@@ -21,6 +21,7 @@ func init() {
 			"C01.6 the address installed in a permission/binding is decoded into storage local to the installing invocation (no aliasing with later decodes, so the entry expires under its own key); " +
 			"C01.7 (=C07.1) permission timers are armed only from the permission timeout and channel timers only from the channel timeout (a swap lets one outlive its configured lifetime); " +
 			"C01.8 every listener's read loop runs on the allocation manager that was created from that listener's own configuration (its PermissionHandler and relay generator), not on a manager picked from a table; " +
+			"C01.9 (=C02.3) the permission key FingerprintAddr is a canonical form of the peer IP (IP.String() or the To16() bytes): two different addresses never share a key, one address in two spellings has one key; " +
 			"C01.5 the expiry closures remove exactly their own entry (RemovePermission(p.Addr) deletes key FingerprintAddr(addr); RemoveChannelBind(c.Number) removes the element with that number).",
 		NotCovered: "that expiry happens at the right instant; the operator's policy; interleavings between the guard and the write.",
 		Run:        runC01,
@@ -36,6 +37,9 @@ func runC01(c *Ctx) {
 	ruleInstalledAddrFresh(c, "C01.6")
 	ruleTimerRoles(c, "C01.7")
 	ruleListenerOwnManager(c, "C01.8")
+	// the permission table key is injective in the peer IP (shared with C02.3/C08.6): a
+	// permission for one address must not admit another
+	ruleAddrDeps(c, "C01.9")
 }
 
 // ---------------------------------------------------------------------------------
